@@ -43,6 +43,19 @@ def headerHolds (re : Regex) (req : Request) (e : String × StringMatch) : Bool 
   | some v => smHolds re e.2 v
   | none => false
 
+/-- A JWT-claim key (`@request.auth.claims...`): the claim is present in the verified token and (one of)
+    its value(s) matches. -/
+def claimHolds (re : Regex) (req : Request) (p : List String) (sm : StringMatch) : Bool :=
+  match lookupClaim req.claims p with
+  | some vs => vs.any (fun v => (claimSpec sm).eval re v)
+  | none => false
+
+/-- One `headers` / `withoutHeaders` entry: a claim key or an ordinary header. -/
+def entryHolds (re : Regex) (req : Request) (e : String × StringMatch) : Bool :=
+  match claimPath e.1 with
+  | some p => claimHolds re req p e.2
+  | none => headerHolds re req e
+
 def queryHolds (re : Regex) (req : Request) (e : String × StringMatch) : Bool :=
   match lookup req.query e.1 with
   | some v => smHolds re e.2 v
@@ -71,8 +84,8 @@ def pseudoHolds (re : Regex) (v : String) : Option StringMatch → Bool
 /-- All runtime conditions of one match block hold for the request. -/
 def matchHolds (re : Regex) (sem : Semantics) (m : HTTPMatch) (req : Request) : Bool :=
   uriHolds re sem m.ignoreUriCase m.uri req.path
-    && m.headers.all (headerHolds re req)
-    && m.withoutHeaders.all (fun e => !headerHolds re req e)
+    && m.headers.all (entryHolds re req)
+    && m.withoutHeaders.all (fun e => !entryHolds re req e)
     && pseudoHolds re req.method m.method
     && pseudoHolds re req.authority m.authority
     && pseudoHolds re req.scheme m.scheme
@@ -116,7 +129,7 @@ def vsApplies (c : Ctx) (vs : VirtualService) : Bool :=
     value pattern that accepts the empty string (Envoy cannot tell "absent" from "empty" once
     `treat_missing_header_as_empty` is set). -/
 def withoutOK (re : Regex) (m : HTTPMatch) (req : Request) : Bool :=
-  m.withoutHeaders.all (fun e => (req.header e.1).isSome || presenceOnly e.2 || !smHolds re e.2 "")
+  m.withoutHeaders.all (fun e => isClaimKey e || (req.header e.1).isSome || presenceOnly e.2 || !smHolds re e.2 "")
 
 /-- Redirect codes the translation supports (others leave the route without action). -/
 def redirectOK (r : HTTPRoute) : Bool :=
